@@ -282,6 +282,28 @@ func c02TieInputs(r *Rand) []*c02Input {
 		add("dispatch-inputs-cross-references", wf(b.String()))
 	}
 
+	// matrix rows of which one is given by an expression (such a row has no name node in the syntax
+	// tree) between two rows whose errors meet at one reported position
+	{
+		tail := "a" + fmt.Sprint(r.Intn(9)) + ": [\"${{ "
+		mid := "m" + fmt.Sprint(r.Intn(9)) + ": \"${{ fromJSON('[1]') }}\", "
+		head := "z" + fmt.Sprint(r.Intn(9)) + ": [\""
+		dist := len([]rune("zfoo }}\"], " + mid + tail))
+		fill := []string{"日", "é"}[r.Intn(2)]
+		extra := len(fill) - 1
+		pad := ""
+		for (dist+len(pad))%extra != 0 {
+			pad += " "
+		}
+		line := head + strings.Repeat(fill, (dist+len(pad))/extra) + " ${{ zfoo }}\"]" + pad + ", " + mid + tail + "zbar }}\"]"
+		add("matrix-rows-with-expression-row", wf("on: push\njobs:\n  j:\n    strategy:\n      matrix: {"+line+"}\n    runs-on: ubuntu-latest\n    steps:\n      - run: echo\n"))
+	}
+	// configuration with several invalid globs: which one the fatal error names
+	add("config-several-invalid-globs", map[string]string{
+		".github/workflows/w.yml": c02WfHead + c02Job("j", "      - run: echo\n"),
+		".github/actionlint.yaml": "paths:\n  '[a': {ignore: []}\n  '[b': {ignore: []}\n  '[c': {ignore: []}\n  '{d': {ignore: []}\n",
+	})
+
 	// several missing required inputs of a bundled action / undefined inputs
 	keys := make([]string, 0, len(actionlint.PopularActions))
 	for k := range actionlint.PopularActions {
@@ -850,6 +872,7 @@ type c02FlowSite struct {
 	After     string   // lines after the mapping line
 	Keys      []string // admissible entry names (nil: free names)
 	Pre, Post string   // around each quoted value
+	Close     string   // text between the closing '}' of the mapping and the end of the line
 	Files     map[string]string
 }
 
@@ -870,6 +893,9 @@ var c02FlowSites = []c02FlowSite{
 	{Name: "job-outputs", Before: "on: push\njobs:\n  j:\n    runs-on: ubuntu-latest\n", Lead: "    outputs: ", After: "    steps:\n      - run: echo\n"},
 	{Name: "matrix-rows", Before: "on: push\njobs:\n  j:\n    strategy:\n", Lead: "      matrix: ", After: "    runs-on: ubuntu-latest\n    steps:\n      - run: echo\n", Pre: "[", Post: "]"},
 	{Name: "matrix-include-entry", Before: "on: push\njobs:\n  j:\n    strategy:\n      matrix:\n        include:\n", Lead: "          - ", After: "    runs-on: ubuntu-latest\n    steps:\n      - run: echo\n"},
+	{Name: "matrix-row-object-value", Before: "on: push\njobs:\n  j:\n    strategy:\n", Lead: "      matrix: {x: [", Close: "]}", After: "    runs-on: ubuntu-latest\n    steps:\n      - run: echo\n"},
+	{Name: "matrix-include-object-value", Before: "on: push\njobs:\n  j:\n    strategy:\n      matrix:\n        include:\n", Lead: "          - k: ", After: "    runs-on: ubuntu-latest\n    steps:\n      - run: echo\n"},
+	{Name: "matrix-exclude-object-value", Before: "on: push\njobs:\n  j:\n    strategy:\n      matrix:\n        k: [{a: 1}]\n        exclude:\n", Lead: "          - k: ", After: "    runs-on: ubuntu-latest\n    steps:\n      - run: echo\n"},
 	{Name: "dispatch-inputs", Before: "on:\n  workflow_dispatch:\n", Lead: "    inputs: ", After: "jobs:\n  j:\n    runs-on: ubuntu-latest\n    steps:\n      - run: echo\n", Pre: "{type: string, description: ", Post: "}"},
 	{Name: "dispatch-inputs-default", Before: "on:\n  workflow_dispatch:\n", Lead: "    inputs: ", After: "jobs:\n  j:\n    runs-on: ubuntu-latest\n    steps:\n      - run: echo\n", Pre: "{type: string, default: ", Post: "}"},
 	{Name: "call-event-inputs", Before: "on:\n  workflow_call:\n", Lead: "    inputs: ", After: "jobs:\n  j:\n    runs-on: ubuntu-latest\n    steps:\n      - run: echo\n", Pre: "{type: string, default: ", Post: "}"},
@@ -922,7 +948,7 @@ func c02FalseTieInput(r *Rand, site c02FlowSite) *c02Input {
 		line = head + tail + line
 		right = head + tail + right
 	}
-	files := map[string]string{".github/workflows/w.yml": site.Before + site.Lead + "{" + line + "}\n" + site.After}
+	files := map[string]string{".github/workflows/w.yml": site.Before + site.Lead + "{" + line + "}" + site.Close + "\n" + site.After}
 	for p, c := range site.Files {
 		files[p] = c
 	}
